@@ -10,10 +10,12 @@ unification), meet = bitwise and, bottom = 0.
 Expressions travel in postfix, comma separated: `a<mask>` atom, `&` `|` binary, `*` mark,
 `p` parentheses.
 
-ops:  model <expr> <concreteBits>   the transcribed algorithm's observables
-      spec  <expr> <concreteBits>   the spec's value-default pair observables
+ops:  model <expr> <probeBits> <concreteBits>   the transcribed algorithm's observables
+      spec  <expr> <probeBits> <concreteBits>   the spec's value-default pair observables
       (element ids are a linear extension of the order: a value's own id is the highest bit
-      of its mask; <concreteBits> has the id bits of the concrete elements)
+      of its mask; <concreteBits> has the id bits of the concrete elements, <probeBits> those
+      of the concrete MINIMAL elements — for a minimal p, "v unifies with p" is "p's bit is in
+      v's mask")
       class <expr>                  wf / no-nested-marks / flat / counts
       mode <hasDefault> <marked>, comb <a> <b>, comb2 <a> <b> <da> <db>   table cells -/
 
@@ -77,18 +79,18 @@ def boolOf (s : String) : Option Bool :=
 
 def handle (ws : List String) : String :=
   match ws with
-  | ["model", es, cs] =>
-    match parseExpr es, cs.toNat? with
-    | some e, some c =>
+  | ["model", es, ps, cs] =>
+    match parseExpr es, ps.toNat?, cs.toNat? with
+    | some e, some pb, some c =>
       let o := eval bits e
-      s!"vals={showNats o.values} defs={showNats o.defaults} has={boolStr o.hasDefault} acc={orAll o.values &&& c} dacc={orAll o.defaultSet &&& c} cls={clsOf o.resolve (conc c)}"
-    | _, _ => "bad-op"
-  | ["spec", es, cs] =>
-    match parseExpr es, cs.toNat? with
-    | some e, some c =>
+      s!"vals={showNats o.values} defs={showNats o.defaults} has={boolStr o.hasDefault} acc={orAll o.values &&& pb} dacc={orAll o.defaultSet &&& pb} cls={clsOf o.resolve (conc c)}"
+    | _, _, _ => "bad-op"
+  | ["spec", es, ps, cs] =>
+    match parseExpr es, ps.toNat?, cs.toNat? with
+    | some e, some pb, some c =>
       let p := specPair bits e
-      s!"acc={orAll p.v &&& c} dacc={orAll p.defaultSet &&& c} cls={clsOf p.resolve (conc c)}"
-    | _, _ => "bad-op"
+      s!"acc={orAll p.v &&& pb} dacc={orAll p.defaultSet &&& pb} cls={clsOf p.resolve (conc c)}"
+    | _, _, _ => "bad-op"
   | ["class", es] =>
     match parseExpr es with
     | some e =>
